@@ -153,7 +153,21 @@ def check_need_more(prog, r):
                 continue
             n += 1
             gs = flat_guards(fv, bi)
-            len_cmp = any(g[0] == "bin" and g[1] in ("Lt", "Le", "Gt", "Ge") and ("len" in show(g, 200) or "buffer_len" in show(g, 200)) for g, l, h in gs)
+            def short_side(g, l):
+                """The guard says "the buffer holds fewer bytes than needed" on the edge taken."""
+                if not (g[0] == "bin" and g[1] in ("Lt", "Le", "Gt", "Ge") and l <= {"true", "false"} and len(l) == 1):
+                    return False
+                isbuf = lambda x: any(c.endswith("::len") for c in expr_calls(x)) or bool({"buffer_len", "buflen", "buf_len"} & set(expr_vars(x)))
+                a, b = g[2], g[3]
+                if isbuf(a) == isbuf(b):
+                    return False
+                op = g[1]
+                if l == {"false"}:
+                    op = {"Lt": "Ge", "Le": "Gt", "Gt": "Le", "Ge": "Lt"}[op]
+                if isbuf(b):
+                    op = {"Lt": "Gt", "Le": "Ge", "Gt": "Lt", "Ge": "Le"}[op]
+                return op in ("Lt", "Le")
+            len_cmp = any(short_side(g, l) for g, l, h in gs)
             on_err = any(g[0] == "discr" and "Err" in l for g, l, h in gs)
             if len_cmp and not on_err:
                 r.ok("%s: Ok(None) under a buffer-length comparison" % short(fv.name))
